@@ -59,8 +59,9 @@ Shapes == << [rle |-> << <<V(7, 0), 5>> >>, order |-> "asc"],                   
              [rle |-> << <<V(2, 0), 30>>, <<V(3, 0), 30>>, <<V(100000, 0), 1>> >>, order |-> "asc"],   \* outlier
              [rle |-> << <<V(1, 0), 1>>, <<V(2, 0), 1>> >>, order |-> "asc"],                    \* n = 2
              [rle |-> << <<V(-5, -10), 2>>, <<V(11, -10), 1>> >>, order |-> "asc"] >>            \* n = 3
-BigNs == IF Thorough THEN <<1001, 5001, 50001, 99998, 100000, 100001, 100002, 250000, 1000000>>
-         ELSE <<1001, 100000, 100001, 250000>>
+\* (17 825 793 = 2^24 + 2^20 + 1 observations: beyond the integers a f32 can count)
+BigNs == IF Thorough THEN <<1001, 5001, 50001, 99998, 100000, 100001, 100002, 250000, 1000000, 17825793>>
+         ELSE <<1001, 100000, 100001, 250000, 17825793>>
 C01Part(d) ==
   /\ \A i \in 1..ND :
        LET n == Pick(i, 11, 2, 301)  data == RandSample(i, n, Offsets[Pick(i, 12, 1, 4)], Exps[Pick(i, 13, 1, 3)])
@@ -69,6 +70,11 @@ C01Part(d) ==
        IN \A ty \in {"f64", "f32"} : \A li \in Levs : \A ki \in 1..3 : EmitStyles("arith", ty, ki, li, dd)
   /\ \A s \in DOMAIN Shapes : \A ty \in {"f64", "f32"} : \A li \in Levs : \A ki \in 1..3 :
        EmitStyles("arith", ty, ki, li, Shapes[s])
+  \* irregular samples: every value distinct, no symmetry, supplied in no particular order
+  /\ \A i \in 1..((ND + 1) \div 2) : \A ty \in {"f64", "f32"} : \A li \in Levs : \A ki \in 1..3 :
+       LET n == Pick(700 + i, 11, 5, 60)
+           data == [rle |-> [j \in 1..n |-> <<V((Pick(700 + i, 100 + j, -500, 500) * 64) + j, -3), 1>>], order |-> "asc"] IN
+       EmitStyles("arith", ty, ki, li, data)
   \* magnitudes at which the square of the SUM leaves the float range while every square and the sum of squares
   \* stay inside (200 values of about 5000 * 2^45 in f32, 5000 * 2^494 in f64), and tiny ones (2^-60 / 2^-500)
   /\ \A i \in 1..2 : \A ty \in {"f64", "f32"} : \A sg \in {1, -1} : \A li \in {8, 12} : \A ki \in 1..3 :
@@ -208,6 +214,12 @@ C05Part(d) ==
            data == PosSample(900 + i, n, 0) @@ [scale |-> [p |-> sc * (IF ty = "f64" THEN 70 ELSE 24)]] IN
        \A li \in LevQuick : \A ki \in 1..3 : \A fl \in {"geo", "harm"} :
             Emit(MeanCase(fl, ty, "ci", ki, li, data, TRUE, "base") @@ [aux |-> TRUE])
+  \* irregular strictly positive samples: every value distinct, in no particular order
+  /\ \A i \in 1..((ND + 2) \div 3) : \A fl \in {"geo", "harm"} : \A ty \in {"f64", "f32"} : \A li \in LevQuick : \A ki \in 1..3 :
+       LET n == Pick(800 + i, 11, 3, 50)
+           data == [rle |-> [j \in 1..n |-> <<V((Pick(800 + i, 100 + j, 1, 900) * 64) + j, -5), 1>>], order |-> "asc"] IN
+       /\ Emit(MeanCase(fl, ty, "ci", ki, li, data, TRUE, "base") @@ [aux |-> TRUE])
+       /\ Emit(MeanCase(fl, ty, "append", ki, li, data, FALSE, "style") @@ [aux |-> FALSE])
   \* strictly positive SUBNORMAL observations (about 2^-1050 in f64, 2^-132 in f32): still strictly positive data
   \* (geometric only: the reciprocals of subnormal numbers overflow)
   /\ \A i \in 1..2 : \A ty \in {"f64", "f32"} : \A fl \in {"geo"} : \A li \in {8, 12} : \A ki \in 1..3 :
